@@ -168,9 +168,9 @@ def matches(pattern, path):
 
 
 @contract(P + "PatternMatcher._get_compiled", props=["C18"], types=dict(self=MatcherT, pattern=Str), returns=PatternT,
-          modifies=["self._compiled_patterns"],
-          assumed="memo cache of compiled regexes (dict of opaque Pattern objects): cache coherence is not modelled; "
-                  "invalid patterns are rejected earlier by PatternValidator.validate_config")
+          assumed="observationally pure memo cache of compiled regexes (dict of opaque Pattern objects): the write to "
+                  "self._compiled_patterns is not modelled (no frame is claimed for that field) and cache coherence is "
+                  "trusted; invalid patterns are rejected earlier by PatternValidator.validate_config")
 class GetCompiled:
     def value(self, pattern):
         return compiled_i(pattern)
